@@ -518,6 +518,18 @@ func (p *cparser) primary() *CExpr {
 	case "str":
 		return &CExpr{Op: "str", Name: t.s, Pos: p.where}
 	case "id":
+		if t.s == "forallint" {
+			// forallint x :: body   -- x ranges over the mathematical integers (ghost Int); axioms only
+			v := p.next()
+			e := &CExpr{Op: "forallint", Name: v.s, Pos: p.where}
+			for p.isOp(",") {
+				p.next()
+				e.Name += "," + p.next().s
+			}
+			p.expect("::")
+			e.Args = []*CExpr{p.expr(0)}
+			return e
+		}
 		if t.s == "forall" || t.s == "exists" {
 			// forall i :: body   |  forall i in lo..hi :: body
 			v := p.next()
@@ -621,7 +633,7 @@ func (e *CExpr) String() string {
 			as = append(as, a.String())
 		}
 		return e.Name + "(" + strings.Join(as, ", ") + ")"
-	case "forall", "exists":
+	case "forall", "exists", "forallint":
 		return e.Op + " " + e.Name + " :: " + e.Args[0].String()
 	}
 	return "?"
